@@ -99,6 +99,9 @@ SHAPES = [
     ('221-all-classes', [12001, 221007, 10, 1001, 12001, 20011, 1015, 8002, 13, 12001]),
     ('class-00-elements', [10, 1001, 11, 12, 12001]),
     ('zero-count', [101000, 31001, 12001, 1001]),
+    ('empty-template', []),
+    ('operators-only', [201130, 201000, 202129, 202000]),
+    ('single-element', [1001]),
     ('nested-delayed', [105000, 31001, 1001, 102000, 31000, 12001, 2001]),
     ('nested-fixed', [103002, 1001, 101003, 12001]),
     ('sequence', [301001, 301011, 301021]),
